@@ -146,7 +146,7 @@ type c10case struct {
 	O       *obs     `json:"obs"`
 	OrE     oracle   `json:"or_ecs"` // independent LPM over declared subnets of map8 for the client prefix
 	OrR     oracle   `json:"or_res"` // independent LPM over declared subnets of mapM for the resolver address
-	RdE     *rdiag   `json:"rd_ecs,omitempty"` // diagnostic: Reader.EcsLocation on the same backend
+	RdE     *rdiag   `json:"rd_ecs,omitempty"` // Reader.EcsLocation on the same backend (what the driver found)
 	RdR     *rdiag   `json:"rd_res,omitempty"` // diagnostic: Reader.ResolverLocation
 	File    string   `json:"file,omitempty"`
 }
@@ -314,6 +314,10 @@ func netShape(r *hlib.Rng, shape int, base int) ([]subnet, string) {
 			mkNet("::/0", L(3))}, "v4-split+v6-default"
 	case 10:
 		return []subnet{mkNet("0.0.0.0/1", L(0)), mkNet("128.0.0.0/1", L(1)), mkNet("8000::/1", L(2))}, "halves"
+	case 11:
+		// IPv6 subnets that contain the v4-mapped block without being ::/0
+		return []subnet{mkNet("::/1", L(0)), mkNet("2001:db8::/32", L(1)), mkNet("10.0.0.0/8", L(2)),
+			mkNet("::ffff:0:0/90", L(3))}, "v6-over-v4block"
 	default:
 		// random laminar family
 		var res []subnet
@@ -346,7 +350,7 @@ func genConfig(r *hlib.Rng, idx int) *config {
 	// map ids: ECS maps 0x6500+i, resolver maps 0x6d00+i
 	E := func(i int) int { return 0x6501 + i }
 	M := func(i int) int { return 0x6d01 + i }
-	const nShapes = 12
+	const nShapes = 13
 	nNames := nShapes + 4
 	// resolver maps
 	c.Nets[M(0)] = []subnet{mkNet("0.0.0.0/0", 0x0001), mkNet("::/0", 0x0001), mkNet("198.51.100.0/24", 0x0002), mkNet("2001:db8:53::/48", 0x0003)}
@@ -1060,9 +1064,7 @@ func runQuery(emit func(c10case), c *config, cfgIdx int, bks []*backend, q query
 			before := b.st.hits
 			cs.O = serve(rn.h, wire, rip)
 			cs.Hit = b.st.hits > before
-			if rn.mode == "nocache" {
-				cs.RdE, cs.RdR = readerDiag(rn.h, wire, rip)
-			}
+			cs.RdE, cs.RdR = readerDiag(rn.h, wire, rip)
 			emit(cs)
 		}
 	}
